@@ -57,6 +57,7 @@ import DDProps.Histories
 import DDProps.Histories2
 import DDProps.Histories3
 import DDProps.Histories4
+import DDProps.Histories5
 import DDProps.Tables
 import DD.ApiDriver
 import DD.AutoDriver
